@@ -60,6 +60,7 @@ func (gw *gengineWrapper) clearInjected(keys ...string) {
 		return
 	}
 	gw.rulebuilder.Dc.Del(keys...)
+	verifHook("clear", gw.tag, 0)
 }
 
 //poolLen  -> gengine pool length to init
@@ -191,6 +192,7 @@ func (gp *GenginePool) getGengine() (*gengineWrapper, error) {
 
 // async return gengine resource to pool,and update the rules
 func (gp *GenginePool) putGengineLocked(gw *gengineWrapper) {
+	verifHook("put", gw.tag, 0)
 	//addition resource
 	go func() {
 		if gw.addition {
@@ -609,6 +611,7 @@ func (gp *GenginePool) ExecuteRulesWithSpecifiedEM(reqName string, req interface
 	//release resource
 	defer func() {
 		gw.rulebuilder.Dc.Del(reqName, respName)
+		verifHook("clear", gw.tag, 0)
 		gp.putGengineLocked(gw)
 	}()
 
